@@ -19,8 +19,12 @@ for sid in sorted(os.listdir(os.path.join(ROOT, 'seeded'))):
         if r.returncode != 0:
             print(sid, 'PATCH DOES NOT APPLY', r.stdout[-200:], r.stderr[-200:]); bad += 1; continue
         out = {}
-        for prop, want in exp.items():
-            p = subprocess.run([os.path.join(ROOT, 'check'), prop, '--no-evidence'], capture_output=True, text=True, env=dict(os.environ, VERIF_REPO=tmp, VERIF_NO_REPLAY_SEARCH='1'))
+        # verdicts that need the bounded replay search (an undecided function whose failing input is found and replayed)
+        exp_rs = json.load(open(os.path.join(d, 'expect_with_replay_search.json'))) if os.path.exists(os.path.join(d, 'expect_with_replay_search.json')) else {}
+        for prop, want in list(exp.items()) + [(k + '+search', v) for k, v in exp_rs.items()]:
+            env = dict(os.environ, VERIF_REPO=tmp, VERIF_NO_REPLAY_SEARCH='1')
+            if prop.endswith('+search'): env.pop('VERIF_NO_REPLAY_SEARCH')
+            p = subprocess.run([os.path.join(ROOT, 'check'), prop.split('+')[0], '--no-evidence'], capture_output=True, text=True, env=env)
             first = (p.stdout.strip().splitlines() or [''])[0]
             out[prop] = (p.returncode, re.sub(r'replay=\S+', 'replay=…', first)[:150])
             if p.returncode != want: bad += 1
